@@ -54,7 +54,8 @@ def build_case(beh, name, shape_seed=0):
             elif k == "run":
                 res.append({"op": "run", "t": [o["t"], 0], "idle": o["idle"]})
             elif k == "acreate":
-                res.append({"op": "acreate", "aid": o["aid"], "oid": o["oid"], "init": item(o["item"])})
+                res.append({"op": "acreate", "aid": o["aid"], "oid": o["oid"], "init": item(o["item"]),
+                            "form": (o["aid"] + shape_seed) % 3})
             elif k == "call":
                 holds = {}
                 if o.get("ho"):
